@@ -642,6 +642,9 @@ func runL0(seed int64, n int, dir string) error {
 		fmt.Fprintf(iw, "%d %s\n", id, probeDifferentPassphrase([]byte(pp[0]), []byte(pp[1])))
 		stats["probe_different_passphrase"]++
 	}
+	id++
+	fmt.Fprintf(cw, "%d probe encryptor-reuse\n", id)
+	fmt.Fprintf(iw, "%d %s\n", id, probeEncryptorReuse())
 	for _, pass := range [][]byte{{}, nil, []byte("p"), []byte("a longer passphrase")} {
 		id++
 		fmt.Fprintf(cw, "%d probe stored-plaintext x%x\n", id, pass)
